@@ -110,7 +110,16 @@ func c07CellProgram(cell c07Cell, guardOn int) (*Program, []byte) {
 
 type c07Header struct{ sig, pos, outer string }
 
+var c07HeadersCache []c07Header
+
 func c07Headers() []c07Header {
+	if c07HeadersCache == nil {
+		c07HeadersCache = c07HeadersBuild()
+	}
+	return c07HeadersCache
+}
+
+func c07HeadersBuild() []c07Header {
 	var out []c07Header
 	for _, s := range []string{"break", "continue", "return", "next", "exit"} {
 		for _, pos := range []string{"for-pre", "for-cond", "for-post", "while-cond", "forin-iterable"} {
@@ -254,7 +263,16 @@ func c07BoundPrograms() []*Program {
 
 type c07Long struct{ name, prog, input, want string }
 
+var c07LongsCache []c07Long
+
 func c07Longs() []c07Long {
+	if c07LongsCache == nil {
+		c07LongsCache = c07LongsBuild()
+	}
+	return c07LongsCache
+}
+
+func c07LongsBuild() []c07Long {
 	big := func(n int) string {
 		var sb strings.Builder
 		sb.WriteByte('[')
@@ -458,7 +476,9 @@ func c07Run(c *Case) {
 			c.Sample(map[string]any{"header_cell": key, "program": Canon(p)})
 		}
 	case i < len(mat)*3+300+len(c07Headers())*3+len(c07Longs()):
-		c07LongRun(c, c07Longs()[i-len(mat)*3-300-len(c07Headers())*3])
+		// the long histories run at indices spread over the sampled range (see below) so that they land in different workers
+		c.Count("placeholder_for_long_history")
+		c.Held()
 	case i < len(mat)*3+300+len(c07Headers())*3+len(c07Longs())+len(c07Chains):
 		k := i - (len(mat)*3 + 300 + len(c07Headers())*3 + len(c07Longs()))
 		c.NonTrivial(fmt.Sprintf("chain:%d", k))
@@ -470,6 +490,10 @@ func c07Run(c *Case) {
 		c.Count("loops_with_moving_bound")
 		m2(c, &M2Case{Prog: c07Bounds[k], Desc: "loop whose bound variable changes while it runs"})
 	default:
+		if start := len(mat)*3 + 300 + len(c07Headers())*3 + len(c07Longs()) + len(c07Chains) + len(c07Bounds); (i-start)%5000 == 17 && (i-start)/5000 < len(c07Longs()) {
+			c07LongRun(c, c07Longs()[(i-start)/5000])
+			return
+		}
 		g := newStructGen(c.Rng, sgOpts{MaxDepth: 2 + c.Rng.IntN(4), Funcs: c.Rng.IntN(2) == 0, Signals: true, Exit: true, MultiRule: true, NonASCII: true})
 		p, doc := g.Program()
 		mode := ParenMinimal
